@@ -284,6 +284,15 @@ def table(tier: str) -> list[dict[str, Any]]:
     row('ExtendBlockSizePass(3)', lambda: [QuickPartitioner(2),
                                            ExtendBlockSizePass(3)],
         lambda r: gen_mq(r, 4, [CNOTGate()]), EXACT, post_same_ops)
+    # blocks whose operations carry parameters of their own
+    row('ExtendBlockSizePass(3) on re-parameterised blocks',
+        lambda: ExtendBlockSizePass(3), gen_blocked, EXACT, post_same_ops)
+    row('UnfoldPass on re-parameterised blocks', UnfoldPass, gen_blocked,
+        EXACT, post_same_ops)
+    for tgt in ('variable', 'constant'):
+        row('BlockConversionPass(%s) on re-parameterised blocks' % tgt,
+            lambda tgt=tgt: BlockConversionPass(tgt), gen_blocked, EXACT,
+            post_none)
     row('CompressPass', CompressPass,
         lambda r: gen_mq(r, 3, [CNOTGate()]), EXACT, post_same_ops)
     row('UnfoldPass after QuickPartitioner(3)',
@@ -372,6 +381,38 @@ def table(tier: str) -> list[dict[str, Any]]:
         for r in rows:
             r['n'] = r['n'] * 3
     return rows
+
+
+def gen_blocked(rng: random.Random) -> Circuit:
+    """An already blocked circuit whose block operations carry their own
+    parameters: one parameterised CircuitGate object used several times with
+    different parameter vectors (the gate's stored parameters are those of
+    none of them), a one-qudit block and plain gates in between."""
+    n = rng.choice([3, 4])
+    layer = Circuit(2)
+    layer.append_gate(U3Gate(), 0)
+    layer.append_gate(RZGate(), 1)
+    layer.append_gate(CNOTGate(), (0, 1))
+    layer.append_gate(RXGate(), 1)
+    g2 = CircuitGate(layer)
+    one = Circuit(1)
+    one.append_gate(RZGate(), 0)
+    one.append_gate(RXGate(), 0)
+    g1 = CircuitGate(one)
+    c = Circuit(n)
+    for _ in range(rng.randint(2, 4)):
+        k = rng.random()
+        if k < 0.55:
+            c.append_gate(g2, rng.sample(range(n), 2),
+                          [rng.uniform(-3, 3) for _ in range(g2.num_params)])
+        elif k < 0.8:
+            c.append_gate(g1, rng.randrange(n),
+                          [rng.uniform(-3, 3) for _ in range(g1.num_params)])
+        else:
+            c.append_gate(CNOTGate(), rng.sample(range(n), 2))
+    c.append_gate(g2, rng.sample(range(n), 2),
+                  [rng.uniform(-3, 3) for _ in range(g2.num_params)])
+    return c
 
 
 def gen_mpr(rng: random.Random) -> Circuit:
